@@ -532,7 +532,9 @@ def exec_sigprof(case):
         raise Machinery(f"no recoverable key for profile {case}")
     raw, der = enc_rs(bits, "raw", r, s), refpk.der_sig(r, s)
     cpub = C["ec"].EllipticCurvePublicNumbers(Q[0], Q[1], c_curve(bits)).public_key()
-    valid = refpk.ecdsa_verify(curve, Q, dig, r, s)
+    # validity of the constructed triple: `cryptography` confirms every one, the pure-Python verifier every 8th (it costs a
+    # double scalar multiplication; the construction itself is pure Python already)
+    valid = refpk.on_curve(curve, Q) and (r_.randrange(8) != 0 or refpk.ecdsa_verify(curve, Q, dig, r, s))
     try:
         cpub.verify(der, msg, C["ec"].ECDSA(c_hash(hname)))
     except C["InvalidSignature"]:
@@ -598,8 +600,9 @@ def replay_flow(job):
     kk = beh["kk0"]
     cur = ("crypt", key.priv if kk == "priv" else key.priv.public_key())  # party that holds the current object, object
     blob = None
-    msg = bytes(r_.randrange(256) for _ in range(r_.choice([0, 1, 7, 32, 55, 64, 100, 300])))
+    msg = bytes(r_.randrange(256) for _ in range(job.get("msglen", r_.choice([0, 1, 7, 32, 55, 64, 100, 300]))))
     vmsg, vkey = msg, key
+    want_bit = job.get("bit")  # sweep lane: the bit to flip is prescribed
     sig, enc, rs = None, None, None
 
     def eff(h):
@@ -803,7 +806,7 @@ def replay_flow(job):
             what = a["what"]
             fact = {"a": "Tamper", "what": what, "bit": -1}
             if what == "sigbit":
-                bit = r_.randrange(8 * len(sig))
+                bit = r_.randrange(8 * len(sig)) if want_bit is None else want_bit % (8 * len(sig))
                 b = bytearray(sig)
                 b[bit // 8] ^= 1 << (bit % 8)
                 sig = bytes(b)
@@ -813,7 +816,7 @@ def replay_flow(job):
                     vmsg = b"\x00"
                     fact["bit"] = -2  # an empty message has no bit: one zero byte is appended instead
                 else:
-                    bit = r_.randrange(8 * len(vmsg))
+                    bit = r_.randrange(8 * len(vmsg)) if want_bit is None else want_bit % (8 * len(vmsg))
                     b = bytearray(vmsg)
                     b[bit // 8] ^= 1 << (bit % 8)
                     vmsg = bytes(b)
@@ -1070,6 +1073,7 @@ def run(tier):
     bg.start("mc2", tlc.mc, "C08", "KeyFlow", "KeyFlowMC.cfg", workers=2, coverage=True, timeout=900)
     bg.start("key/2", gen, "key", 2)
     bg.start("sig/2", gen, "sig", 2)
+    bg.start("sig/sweep", gen, "sig", 3, menu="sweep")
     if quick:  # deeper behaviours are drawn by simulation; the thorough tier enumerates them
         bg.start("key/sim3", gen, "key", 3, simulate="num=400", sim_depth=5)
         bg.start("key/sim", gen, "key", 7, simulate="num=80", sim_depth=9)
@@ -1078,7 +1082,7 @@ def run(tier):
     else:
         bg.start("key/3", gen, "key", 3)
         bg.start("key/4", gen, "key", 4)
-        bg.start("key/sim", gen, "key", 7, simulate="num=3000", sim_depth=9)
+        bg.start("key/sim", gen, "key", 7, simulate="num=1500", sim_depth=9)
         bg.start("sig/3-mid", gen, "sig", 3, menu="mid")
         bg.start("sig/3", gen, "sig", 3)
         bg.start("sig/sim", gen, "sig", 8, simulate="num=8000", sim_depth=10)
@@ -1130,13 +1134,29 @@ def run(tier):
         add("sig/sim", 1)
     else:
         add("key/2", None)
-        add("key/3", 3, rsa_keys=1, allpub=True)
-        add("key/4", 1, sample=12000)
+        add("key/3", 2, rsa_keys=1, allpub=True)
+        add("key/4", 1, sample=5000)
         add("key/sim", 1)
         add("sig/2", 4, rsa_keys=2)
         add("sig/3-mid", 2, rsa_keys=1)
         add("sig/3", 1, sample=40000)
         add("sig/sim", 1)
+    # tamper sweep: TLC gives the shape Sign - Tamper(one bit) - Verify(same parameters); the harness prescribes the bit:
+    # every bit of the signature / of a 16-byte message (thorough, for the key's customary hash), a stratified sample otherwise
+    behs, g = bg.get("sig/sweep")
+    v.add_mc(g)
+    customary = {2048: "sha256", 3072: "sha256", 4096: "sha256", 256: "sha256", 384: "sha384", 521: "sha512"}
+    for b in behs:
+        ks = pool()[(b["kt"], b["size"])]
+        what = b["hist"][1]["what"]
+        nbits = 128 if what == "msgbit" else (b["size"] if b["kt"] == "rsa" else (2 * ((b["size"] + 7) // 8) + (9 if b["hist"][0]["P"]["enc"] == "der" else 0)) * 8)
+        if not quick and b["hist"][0]["P"]["hash"] == customary[b["size"]]:
+            bits = range(nbits)
+        else:
+            n = 20 if quick else 64
+            bits = sorted(set(list(range(10)) + [nbits - 1 - i for i in range(6)] + [r.randrange(nbits) for _ in range(n)]))
+        for bit in bits:
+            jobs.append({"beh": b, "key": r.randrange(len(ks)), "salt": r.randrange(1 << 16), "label": "sig/sweep", "bit": bit, "msglen": 16})
     lap(f"GEN flows: {len(jobs)} replay jobs")
     work = [("sigcodec", c) for c in cases] + [("sigprof", cases[i]) for i in idx]
     fl = [("flow", j) for j in jobs]
@@ -1233,7 +1253,7 @@ def run(tier):
         key = flow_key(t, matched)
         e = t["ev"][min(matched, len(t["ev"]) - 1)]
         v.violation(key, f"{t['x']['key']}: step {matched + 1}/{length} {json.dumps(e)[:300]} {'; '.join(t['x']['notes'])[:300]}",
-                    {"lane": "flow", "job": {"beh": t["x"]["beh"], "key": jobs[tid]["key"], "salt": t["x"]["salt"]}, "trace": t})
+                    {"lane": "flow", "job": {k: x for k, x in jobs[tid].items() if k != "label"}, "trace": t})
 
     v.cov["rule"] = (
         "codec lane: every (curve, byte length and top bit of r and of s) - 30 473 profiles, the initial states of KeyCodecMC - concretised "
